@@ -329,6 +329,13 @@ func (c *vC10Case) oracle(q vC10Req, offs []int64, end string) {
 		return
 	}
 	// end status, where the documentation is explicit
+	if end == "roend" && !(c.ro && c.hw == newest) {
+		// "end of readonly partition" says that nothing more can follow: only true of a read-only log
+		// whose HW has reached its end; below that the rest of the range is still to be committed
+		c.violation("range-end/readonly-end-below-log-end", fmt.Sprintf("start=%d stop=%d (given=%v) hw=%d newest=%d readonly=%v: the subscription ended with \"end of readonly partition\" after %v although offsets up to %d are in the log and in the range",
+			start, stop, hasStop, c.hw, newest, c.ro, offs, newest))
+		return
+	}
 	if !q.reverse && hasStop {
 		reached := false
 		for _, r := range c.ref {
